@@ -3,7 +3,12 @@
 package coinswap
 
 import (
+	"encoding/json"
 	"fmt"
+	"github.com/cosmos/cosmos-sdk/codec"
+	codectypes "github.com/cosmos/cosmos-sdk/codec/types"
+	vestingtypes "github.com/cosmos/cosmos-sdk/x/auth/vesting/types"
+	banktypes "github.com/cosmos/cosmos-sdk/x/bank/types"
 	"math/big"
 	"sort"
 	"time"
@@ -33,6 +38,9 @@ type Variant struct {
 	Std3, Tok3 sdkmath.Int
 	// CreationFee, if positive, replaces the pool creation fee amount (5001 x tax 0.4 has a fractional tax share)
 	CreationFee int64
+	// VestingEscrow: the address that will be the first pool's escrow account (it is a hash of the liquidity token's
+	// name, known before the pool exists) is a vesting account from genesis, with standard coins locked for good
+	VestingEscrow bool
 }
 
 type poolObs struct {
@@ -81,7 +89,35 @@ func New(v Variant) func() (*mc.Env, mc.Driver) {
 		coins := sdk.NewCoins(mc.CI(std, rich), mc.CI("btc", rich), mc.CI("eth", rich), mc.CI("usdt", rich), mc.CI("ada", rich))
 		// C also holds a coin whose name merely looks like a liquidity token of the first pool ("<word>-<pool sequence>")
 		cCoins := coins.Add(mc.CI(lookAlike, mc.Big(20)))
-		e := mc.NewEnv(mc.EnvOptions{Balances: map[string]sdk.Coins{"A": coins, "B": coins, "C": cCoins, "R": nil}})
+		opts := mc.EnvOptions{Balances: map[string]sdk.Coins{"A": coins, "B": coins, "C": cCoins, "R": nil}}
+		if v.VestingEscrow {
+			esc := cstypes.GetReservePoolAddr("lpt-1")
+			locked := sdk.NewCoins(mc.C(std, 1000))
+			opts.GenesisMutators = map[string]func(cdc codec.Codec, raw json.RawMessage) json.RawMessage{
+				authtypes.ModuleName: func(cdc codec.Codec, raw json.RawMessage) json.RawMessage {
+					var g authtypes.GenesisState
+					cdc.MustUnmarshalJSON(raw, &g)
+					bva, err := vestingtypes.NewBaseVestingAccount(authtypes.NewBaseAccountWithAddress(esc), locked, 4102444800) // locked until 2100
+					if err != nil {
+						panic(err)
+					}
+					any, err := codectypes.NewAnyWithValue(vestingtypes.NewDelayedVestingAccountRaw(bva))
+					if err != nil {
+						panic(err)
+					}
+					g.Accounts = append(g.Accounts, any)
+					return cdc.MustMarshalJSON(&g)
+				},
+				banktypes.ModuleName: func(cdc codec.Codec, raw json.RawMessage) json.RawMessage {
+					var g banktypes.GenesisState
+					cdc.MustUnmarshalJSON(raw, &g)
+					g.Balances = append(g.Balances, banktypes.Balance{Address: esc.String(), Coins: locked})
+					g.Supply = g.Supply.Add(locked...)
+					return cdc.MustMarshalJSON(&g)
+				},
+			}
+		}
+		e := mc.NewEnv(opts)
 		return e, &Driver{V: v}
 	}
 }
